@@ -231,6 +231,7 @@ pub struct Injection {
 
 /// Drive the real tokenizer through a schedule. `end` = call end() afterwards.
 pub fn run_real(cfg: &TokCfg, sched: &[Feed], inj: &[Injection], end: bool, want_dump: bool) -> Out {
+    let _watch = crate::common::watch(|w| w.push_str(&crate::c01::witness(cfg, sched)));
     let sink = RecSink::new(cfg.cdata, cfg.script_pause);
     let opts = TokenizerOpts {
         exact_errors: cfg.exact_errors,
